@@ -4,7 +4,7 @@ import os
 import shutil
 import tempfile
 
-from core import nats, natlists, hx, exc_kind
+from core import nats, natlists, hx, exc_kind, safe_check
 
 PROPS = ('GambitV.Props.C20', 'GambitV.C20')
 TIE = []
@@ -215,7 +215,7 @@ def run(ctx):
 	conts = ['array', 'list', 'hdf5']
 
 	def sub(case, tag):
-		lines, pf = check(ctx, case)
+		lines, pf = safe_check(check, ctx, case)
 		err = case.pop('_err', False)
 		nt = case['kind'] == 'get' and len(case['sigs']) >= 2 and not err
 		ctx.submit(case, lines, nontrivial=nt, tags=[tag, 'err' if err else 'ok'] + ([f'cont={case["cont"]}'] if 'cont' in case else []), pyfails=pf)
